@@ -884,6 +884,62 @@ func lemmaWitnesses(c *Ctx, r *Rule, which string) {
 				}
 			})
 		}
+		if ft != nil && n == 0 {
+			// result variables instead of an early return: (tag, found) are carried by paired phis; wherever found
+			// becomes true, the tag assigned with it is the element just tested with HasPrefix(element, prefix)
+			okPair, sawTrue := true, false
+			seenP := map[[2]ssa.Value]bool{}
+			var walk func(tag, found ssa.Value, facts []canonCond, d int)
+			walk = func(tag, found ssa.Value, facts []canonCond, d int) {
+				if d > 6 || seenP[[2]ssa.Value{tag, found}] {
+					return
+				}
+				seenP[[2]ssa.Value{tag, found}] = true
+				if k, isC := found.(*ssa.Const); isC {
+					if k.Value != nil && k.Value.ExactString() == "true" {
+						sawTrue = true
+						good := false
+						for _, f := range facts {
+							if cl, isCl := f.V.(*ssa.Call); f.Op == token.ILLEGAL && f.True && isCl && isCall(cl, "strings.HasPrefix") {
+								if _, isParam := cl.Call.Args[1].(*ssa.Parameter); isParam && (cl.Call.Args[0] == tag || pathOf(cl.Call.Args[0]) == pathOf(tag)) {
+									good = true
+								}
+							}
+						}
+						if !good {
+							okPair = false
+						}
+					}
+					return
+				}
+				fp, ok1 := found.(*ssa.Phi)
+				tp, ok2 := tag.(*ssa.Phi)
+				if !ok1 || !ok2 || fp.Block() != tp.Block() {
+					okPair = false
+					return
+				}
+				for i := range fp.Edges {
+					pred := fp.Block().Preds[i]
+					fs := factsAt(pred)
+					if len(pred.Instrs) > 0 {
+						if ifi, ok := pred.Instrs[len(pred.Instrs)-1].(*ssa.If); ok && pred.Succs[0] != pred.Succs[1] {
+							fs = append(fs, canonOf(Cond{V: ifi.Cond, Sense: pred.Succs[0] == fp.Block(), If: ifi}))
+						}
+					}
+					walk(tp.Edges[i], fp.Edges[i], fs, d+1)
+				}
+			}
+			nRet := 0
+			eachInstr(ft, func(in ssa.Instruction) {
+				if rt, isR := in.(*ssa.Return); isR && len(rt.Results) == 2 {
+					nRet++
+					walk(rt.Results[0], rt.Results[1], factsAt(rt.Block()), 0)
+				}
+			})
+			if nRet >= 1 && okPair && sawTrue {
+				n = 1
+			}
+		}
 		r.Check("findTag-shape", ok && n == 1, token.NoPos, "findTag returns (n, true) only for an element n with strings.HasPrefix(n, prefix)")
 	}
 }
